@@ -427,14 +427,24 @@ class RemoveAssert(ast.NodeTransformer):
         
 class ReplaceDocStrings(ast.NodeTransformer):
     
-    def visit_VerilogProcess(self, node):
+    def replaceInBody(self, body):
+        # string statements (docstrings, commented-out code) become comments,
+        # also inside the bodies of if and case statements
         newbody = []
         
-        for obj in node.body:
+        for obj in body:
             if (isinstance(obj, VerilogConstant)):
                 obj = VerilogComment(obj.value)
+            elif (isinstance(obj, VerilogIf)):
+                obj = VerilogIf(obj.condition, self.replaceInBody(obj.positive), self.replaceInBody(obj.negative))
+            elif (isinstance(obj, VerilogCase)):
+                cases = [VerilogCaseItem(item.value, self.replaceInBody(item.body)) for item in obj.cases]
+                obj = VerilogCase(obj.var, cases, self.replaceInBody(obj.default))
             newbody.append(obj)
-        return VerilogProcess(newbody, node.sensitivity_list)
+        return newbody
+
+    def visit_VerilogProcess(self, node):
+        return VerilogProcess(self.replaceInBody(node.body), node.sensitivity_list)
     
 class ReplaceParameterCalls(ast.NodeTransformer):
         
